@@ -601,8 +601,8 @@ func faceLoops(e *Env) {
 				e.Hold(fn, rule, construct, c.Phi.Pos(), fmt.Sprintf("i from 0 step %d while i < bound, one out.Write per iteration ⇒ PrimitiveCount() records", step))
 			}
 		}
-		if n < 2 {
-			e.Undecide(fn, rule, name+"/loops", fn.Pos(), fmt.Sprintf("expected two face loops (with / without texture coordinates), found %d", n))
+		if n < 1 {
+			e.Undecide(fn, rule, name+"/loops", fn.Pos(), "no face loop found")
 		}
 	}
 	if fn := e.Fn("writeAsciiTriTopo"); fn != nil {
@@ -660,8 +660,8 @@ func faceLoops(e *Env) {
 				e.Hold(fn, rule, construct, c.Phi.Pos(), "for i := 0; i < PrimitiveCount(); i++ { Tri(i) … one line }")
 			}
 		}
-		if n < 2 {
-			e.Undecide(fn, rule, name+"/loops", fn.Pos(), fmt.Sprintf("expected two face loops, found %d", n))
+		if n < 1 {
+			e.Undecide(fn, rule, name+"/loops", fn.Pos(), "no face loop found")
 		}
 	}
 }
